@@ -61,11 +61,11 @@ Section Recip.
   Variable rho : nat -> T.                 (* reflectance of the wall of patch j *)
   Variable area ia : nat -> T.             (* patch area and its inverse *)
   Variable delta : nat -> nat -> nat.      (* travel-time bins *)
-  Hypothesis area_inv : forall i, (area i * ia i)%T = 1%T.
+  Hypothesis area_inv : forall i, In i ps -> (area i * ia i)%T = 1%T.
   Hypothesis delta_sym : forall i j, delta i j = delta j i.
   (** form-factor reciprocity A_i F_ij = A_j F_ji with symmetric attenuation, written
       without division *)
-  Hypothesis G_recip : forall i j, (G i j * ia j)%T = (G j i * ia i)%T.
+  Hypothesis G_recip : forall i j, In i ps -> In j ps -> (G i j * ia j)%T = (G j i * ia i)%T.
 
   Definition fam := nat -> nat -> T.       (* patch -> time -> energy *)
   (** one reflection order; the RECEIVING patch j's reflectance multiplies *)
@@ -132,14 +132,14 @@ Section Recip.
       (* Gam k i m = Gam k m i * ia i * area m  (IH and area m * ia m = 1) *)
       assert (E : Gam k i m v = (Gam k m i v * ia i * area m)%T).
       { transitivity ((Gam k i m v * ia m) * area m)%T.
-        - transitivity (Gam k i m v * (area m * ia m))%T; [rewrite area_inv; ring|ring].
+        - transitivity (Gam k i m v * (area m * ia m))%T; [rewrite (area_inv m Hm); ring|ring].
         - now rewrite (IH i m v Hi Hm). }
       rewrite E.
       (* G m j * ia j = G j m * ia m *)
       transitivity ((rho j * (G m j * ia j)) * Gam k m i v * ia i * area m)%T; [ring|].
-      rewrite G_recip.
+      rewrite (G_recip m j Hm Hj).
       transitivity ((rho j * G j m) * Gam k m i v * ia i * (area m * ia m))%T; [ring|].
-      rewrite area_inv. ring.
+      rewrite (area_inv m Hm). ring.
   Qed.
 
   (** ** source and receiver families *)
